@@ -24,6 +24,7 @@
 #include <unordered_set>
 
 extern "C" void __sanitizer_set_death_callback(void (*)(void)) __attribute__((weak));
+extern "C" int __lsan_do_recoverable_leak_check() __attribute__((weak));
 
 namespace vk {
 
@@ -48,7 +49,10 @@ void Ctx::fail(const char* prop_tag, const char* sig, const char* fmt, ...) {
   va_list ap; va_start(ap, fmt);
   vsnprintf(buf, sizeof buf, fmt, ap);
   va_end(ap);
-  if (tracing) trace.push_back(std::string("VIOLATION[") + prop_tag + "/" + sig + "] " + buf);
+  if (tracing && trace.size() < 400) {
+    trace.push_back(std::string("VIOLATION[") + prop_tag + "/" + sig + "] " + buf);
+    if (live_trace) { fprintf(stdout, "  > %s\n", trace.back().c_str()); fflush(stdout); }
+  }
   if (failed) return;
   failed = true; fail_prop = prop_tag; fail_sig = sig; fail_msg = buf;
   append_file(workdir + "/violation.txt", std::string(prop_tag) + "\t" + sig + "\t" + buf + "\n");
@@ -61,6 +65,7 @@ void Ctx::tr(const char* fmt, ...) {
   vsnprintf(buf, sizeof buf, fmt, ap);
   va_end(ap);
   trace.emplace_back(buf);
+  if (live_trace) { fprintf(stdout, "  > %s\n", buf); fflush(stdout); }
 }
 
 }  // namespace vk
@@ -91,6 +96,8 @@ std::string g_out = ".";
 int g_curfd = -1;
 Clock::time_point g_t0;
 bool g_after_failure = false;
+long g_leak_every = 0;   // run LeakSanitizer's recoverable check after every N-th case (0: only at exit)
+long g_case_no = 0;
 Bytes g_last_fail;
 std::string g_last_fail_sig, g_last_fail_msg, g_last_fail_prop, g_last_fail_desc;
 
@@ -189,6 +196,10 @@ bool run_one(const Bytes& b, bool count) {
   }
   vk::Choice c(b.data(), b.size());
   vk_run_case(c);
+  if (g_leak_every > 0 && (++g_case_no % g_leak_every) == 0 && __lsan_do_recoverable_leak_check && !cx.failed) {
+    if (__lsan_do_recoverable_leak_check() != 0)
+      cx.fail("C02", "heap_leak", "LeakSanitizer: heap memory allocated during this case%s was never freed", g_leak_every > 1 ? " (or one of the few before it)" : "");
+  }
   bool failed = cx.failed;
   if (failed && !cx.prop.empty() && cx.fail_prop != cx.prop && cx.fail_prop != "*") {
     // a violation of an oracle that belongs to another property's check:
@@ -316,6 +327,7 @@ int main(int argc, char** argv) {
     else if (a == "--replay") replay = next();
     else if (a == "--trace") trace_flag = true;
     else if (a == "--cpu") cpu = atoi(next());
+    else if (a == "--leak-check-every") g_leak_every = atol(next());
     else if (a.rfind("--", 0) == 0 && a.find('=') != std::string::npos) {
       auto eq = a.find('='); cx.args[a.substr(2, eq - 2)] = a.substr(eq + 1);
     } else { fprintf(stderr, "unknown argument %s\n", a.c_str()); return 2; }
@@ -333,6 +345,8 @@ int main(int argc, char** argv) {
     cx.tracing = true;
     g_curfd = -1;
     g_replay_mode = true;
+    g_leak_every = 1;
+    cx.live_trace = getenv("VK_LIVE_TRACE") != nullptr;
     bool ok = run_one(b, false);
     print_replay_report(ok);
     return ok ? 0 : 3;
